@@ -542,6 +542,7 @@ void stmt(struct func *, struct scope *);
 
 struct gotolabel {
 	struct block *label;
+	struct location loc;  /* of the first use or definition */
 	bool defined;
 };
 
